@@ -5,6 +5,7 @@ package c03
 import (
 	"bytes"
 	"fmt"
+	"go/format"
 	"os"
 	"sort"
 	"strings"
@@ -60,9 +61,15 @@ func plain(c string) bool {
 func check(sub string) func(t h.TB, c Case) {
 	return func(t h.TB, c Case) {
 		in := []byte(c.Src)
-		ref, _, err := oracle.Canon(in)
+		ref, err := format.Source(in)
 		if err != nil {
 			t.Fatalf("harness: input does not parse: %v", err)
+		}
+		if again, err := format.Source(ref); err != nil || !bytes.Equal(again, ref) {
+			// e.g. the first pass drops an empty "//" line between two import specs and the second
+			// pass then sorts them: "gofmt applied to the input" is not a stable reference
+			h.Exclude("gofmt is not idempotent on this input")
+			return
 		}
 		var out bytes.Buffer
 		var perr, ferr error
@@ -285,6 +292,16 @@ func flattenSorted(cs []string) string {
 		}
 		for _, ln := range strings.Split(c, "\n") {
 			ln = strings.Join(strings.Fields(ln), "")
+			// go/printer drops control characters from comment lines and rewrites build constraints
+			ln = strings.Map(func(r rune) rune {
+				if r < 0x20 || r == 0x7f {
+					return -1
+				}
+				return r
+			}, ln)
+			if strings.HasPrefix(ln, "go:build") || strings.HasPrefix(ln, "+build") {
+				continue
+			}
 			ln = strings.NewReplacer("``", "\u201c", "''", "\u201d").Replace(ln) // the doc formatter curls these quotes
 			ln = strings.TrimLeft(ln, "#")
 			ln = strings.TrimLeft(ln, "-*+•")
